@@ -13,7 +13,7 @@ package apply
 
 //@ func (g *gen) Generate(typs []types.Type) (err error)
 //@ param typs: len=2
-//@ name-variants
+// parameter names are always present here: the registering Add renames blank and empty names (derive.RenameBlankIdentifier)
 //@ emits: decls
 //@ serves: apply len=2 typs=typs
 //@ o-sig: (f $typs[0], last $typs[1]) (r func())
